@@ -46,6 +46,12 @@ class CombinedDataHandler:
         elif handle_unreporting == "zero":
             indices_with_null_val = data[result_cols].isna().any(axis=1)
             data.update(data[result_cols].fillna(value=0))
+            # the derived live columns (weights, dem/gop for the margin) of these units are missing too;
+            # left as NaN they poison every matrix product of the bootstrap aggregation
+            derived_result_cols = [col for col in data.columns if col.startswith("results_") and col not in result_cols]
+            data.loc[indices_with_null_val, derived_result_cols] = data.loc[
+                indices_with_null_val, derived_result_cols
+            ].fillna(value=0)
             data.loc[indices_with_null_val, "percent_expected_vote"] = 0
 
         self.n_minimum_for_outlier_detection_model = 20
